@@ -43,6 +43,43 @@ def family_bitmap():
                                       "r64": ["--color_format", "cbdt", "--bitmap_resolution", "64"]}, [])
 
 
+def family_compress():
+    """Option change = bitmap compression options (pngquant / zopflipng, a quality pngquant cannot meet: its copy-through
+    path): three option values, so that a value can be left and come back to."""
+    srcs = ["src/emoji_u1f9e0.svg", "src/emoji_u1f9e1.svg"]     # gradient-rich: pngquant cannot reach quality 100
+    base = ["--color_format", "cbdt", "--use_pngquant"]
+    return bm.Family("compress", srcs, {"zq": base + ["--use_zopflipng"],
+                                        "q100": base + ["--nouse_zopflipng", "--pngquant_flags=--quality 100-100"],
+                                        "zq100": base + ["--use_zopflipng", "--pngquant_flags=--quality 100-100"]}, [])
+
+
+def option_cycles(chk, fam, work, quick, fault_outs=()):
+    """Every way of walking through the family's option values on one build directory (quick: one walk): the font after
+    each invocation must be the clean build for that value; thorough adds a failed run in the middle."""
+    import itertools
+
+    opts = sorted(fam.opts)
+    walks = [tuple(p) + (p[0],) for p in itertools.permutations(opts, min(3, len(opts)))]
+    if quick:
+        walks = walks[:1]
+    jobs = [(w, None) for w in walks]
+    jobs += [(w, (len(w) - 2, o)) for w in walks[: (1 if quick else 3)] for o in fault_outs[: (1 if quick else None)]]
+
+    def one(k_job):
+        k, (w, fault) = k_job
+        return w, fault, replay_cli.replay_option_cycle(fam, w, work, f"{fam.name}-{k}", fault_at=fault)
+
+    with ThreadPoolExecutor(3) as ex:
+        results = list(ex.map(one, enumerate(jobs)))
+    for w, fault, problems in results:
+        chk.case(key=("cycle", fam.name, w, str(fault)), nontrivial=True)
+        chk.traces_validated += 1
+        for p in problems:
+            if p["kind"] == "clean_build":
+                raise MachineryError(p["detail"])
+            chk.violation(f"[{fam.name}] {p['detail']}", {"family": fam.name, "walk": list(w), "fault": fault, "problem": p})
+
+
 def select_histories(records, n, r):
     """Dedupe; keep histories with >=2 invocations and a user operation; cover every operation and fault kind
     (each followed by a later successful invocation where possible) before filling up at random."""
@@ -210,12 +247,17 @@ def run(chk):
         base = run_models(chk, fam, data, sd, quick)
         known_finding_model(chk, fam, data, sd, work, quick)
         replay_sample(chk, fam, data, sd, work, base, 12 if quick else 120)
+        option_cycles(chk, fam, work, quick)
         # further option kinds of the property's quantifier: colour format, bitmap options
         for fam2, n2 in [(family_fmt(quick), 6 if quick else 60)] + ([] if quick else [(family_bitmap(), 40)]):
             w2 = work / fam2.name
             data2 = bm.extract_family(fam2, w2 / "x")
             base2 = run_models(chk, fam2, data2, w2 / "spec", quick)
             replay_sample(chk, fam2, data2, w2 / "spec", w2, base2, n2, pid="C09-" + fam2.name)
+            option_cycles(chk, fam2, w2, quick)
+        # three compression option values: walks only (the model of this family is the bitmap family's)
+        option_cycles(chk, family_compress(), work / "compress", quick,
+                      fault_outs=("zopflipng/emoji_u1f9e0.png", "pngquant/emoji_u1f9e0.png"))
     chk.assumptions += [
         "ninja 1.13 dirtiness rules as transcribed in Build.tla (validated against real ninja on every replayed "
         "successful invocation: executed edge set must equal the model's)",
